@@ -137,13 +137,26 @@ func runC10(j *C10Job) error {
 		w := newWorld(&j.Map, b.Lazy, hv, []int{1})
 		w.base = time.Now()
 		kn := map[int]known{}
+		inNext := map[int]bool{}
 		for si, st := range b.Steps {
 			switch st.A {
 			case "Exec":
+				// a plugin BEHIND the cache: when the model's next step mutates exactly the message this call is
+				// served, the harness `next` does it in place inside the chain (every second behaviour)
+				inNext[si+1] = false
+				if bi%2 == 0 && si+1 < len(b.Steps) && b.Steps[si+1].A == "Mutate" && st.O.Res == "hit" &&
+					b.Steps[si+1].Hd.Kind == "hit" && b.Steps[si+1].Hd.Id == st.O.Id && b.Steps[si+1].Hd.I == st.I {
+					w.nextPrep = func(cs *callScript) { cs.mutIn = true }
+					inNext[si+1] = true
+				}
 				if _, _, err := w.doExec(st.I, st.Q, st.R, kn); err != nil {
 					return err
 				}
 			case "Mutate":
+				if inNext[si] {
+					w.events = append(w.events, ev{"ev": "Mutate", "i": st.Hd.I, "id": st.Hd.Id, "kind": st.Hd.Kind, "n": 1, "in_next": true})
+					continue
+				}
 				// TLC names the handle by (instance, serial of the entry, kind): the harness mutates every
 				// message it holds for it
 				n := 0
